@@ -6,6 +6,15 @@ import glob, json, os
 # verdict of the FIRST run of the then-registered check against the change, where it differed from the final one, and what was
 # changed in the machinery afterwards (hand-maintained; the final verdict column is regenerated from seeded/*/meta.json)
 FIRST = {
+    # ---- wave 5
+    "C01-w5m1-with-local-recorder-no-longer-holds-a-localrecor": "exit 0 (Kani does not unwind; with_local_recorder's structure was unclaimed) -> scope.verus.rs (closure runs while the guard is alive and armed, R44) + witness_panic_scope.rs",
+    "C03-w5m1-in-key-hasher-impl-metrics-src-key-rs-the-branch": "exit 2 (declared rewrite of the sort idiom no longer applies) -> witness confirmation (witness_many_labels.rs: 21+ labels, repeated names, several supply orders)",
+    "C03-w5m2-partialeq-for-metrics-cow-metrics-src-cow-rs-gai": "exit 0 under C03's check (the change is in cow.rs, which C14's check owns: reported there, c14_str_alias_eq)",
+    "C08-w5m2-the-help-type-header-code-that-was-repeated-thre": "exit 2 (render restructured around a new helper) -> witness confirmation (witness_render_families.rs)",
+    "C13-w5m1-router-route-replaces-trie-get-ancestor-key-clos": "exit 2 (closure rule) -> reported by Router::route's postcondition once the demoted failure is confirmed by witness_router.rs (brute-force longest prefix)",
+    "C13-w5m2-filterlayer-layer-no-longer-compiles-all-configu": "exit 2 (new helper method outside the template) -> witness confirmation (witness_filter.rs against str::contains)",
+    "C16-w5m2-refactors-drain-from-manual-len-idx-bookkeeping-": "exit 2 (the Kani harnesses read Drain's removed fields: build failure) -> witness confirmation extended to Kani build failures (witness_drain.rs)",
+    "C18-w5m1-per-connection-allowlist-check-is-turned-from-a-": "exit 2 (declared rewrite of iter().any(..) no longer applies) -> witness confirmation (witness_serve.rs: real listener, nested networks)",
     # ---- round 4 (wave 4 and older changes re-decided in round 4)
     "C19-w4m1-debuggingrecorder-describe-metric-is-simplified": "exit 2 (the contract assert was anchored on a code line of the old body) -> anchored at //@BODYEND; reported by the proof",
     "C19-w4m2-snapshotter-snapshot-gains-an-optimisation-for-h": "exit 2 (closure rule) -> witness confirmation (witness_registered_listed.rs fails on the real crate)",
